@@ -302,7 +302,7 @@ func parsimonyACCTRAN(cur, prev *tree.Node, a align.Alignment, seqs []*Ancestral
 
 		// We Analyze each direct child
 		for _, child := range cur.Neigh() {
-			if child != prev {
+			if child != prev && !child.Tip() {
 				for j, ances := range seqs[cur.Id()].seq {
 					state := AncestralState{make([]float64, len(charToIndex))}
 					// Compute the intersection with Parent
